@@ -47,20 +47,21 @@ package krpc
 //@   modifies *
 //@   ensures only-whole-elements: result == nil ==> len(b) % recorded("elemsize") == 0
 //@   loop 1
-//@     invariant whole-elements-consumed: len(b) <= old(len(b)) && (old(len(b)) - len(b)) % bytesPerElem == 0 && (bytesPerElem == 6 || bytesPerElem == 18 || bytesPerElem == 20 || bytesPerElem == 26 || bytesPerElem == 38) && bytesPerElem == recorded("elemsize") && err == nil
+//@     invariant whole-elements-consumed: len(b) <= old(len(b)) && (old(len(b)) - len(b)) % recorded("elemsize") == 0 && (recorded("elemsize") == 6 || recorded("elemsize") == 18 || recorded("elemsize") == 20 || recorded("elemsize") == 26 || recorded("elemsize") == 38) && err == nil
 
 // The error value of a KRPC message: a list [code, message] decodes to exactly that code and message, whatever the code
 // (so that what this package encodes -- always the list form -- decodes again: fixpoint); a bare string decodes to the
 // message; anything else is an error, never a panic (the type assertions are guarded by a deferred recover()).
 //@ spec def errlist(v interface{}) bool = typeis(v, "[]interface{}") && len(unbox(v, "[]interface{}")) >= 2 && typeis(unbox(v, "[]interface{}")[0], int64) && typeis(unbox(v, "[]interface{}")[1], string)
 //@ func (*dht/krpc.Error).UnmarshalBencode
+//@   alias decoded = pointee($v of github.com/anacrolix/torrent/bencode.Unmarshal)
 //@   requires nonnil: e != nil
 //@   modifies *
 //@   ensures undecodable-is-an-error: recorded("unmarshalerr") != nil ==> err != nil
-//@   ensures a-code-and-message-list-decodes-to-that-code-and-message: recorded("unmarshalerr") == nil && errlist(_v) ==> err == nil && e.Code == int(unbox(unbox(_v, "[]interface{}")[0], int64)) && e.Msg == unbox(unbox(_v, "[]interface{}")[1], string)
-//@   ensures a-malformed-list-is-an-error: recorded("unmarshalerr") == nil && typeis(_v, "[]interface{}") && !errlist(_v) ==> err != nil
-//@   ensures a-string-is-the-message: recorded("unmarshalerr") == nil && typeis(_v, string) ==> err == nil && e.Msg == unbox(_v, string)
-//@   ensures anything-else-is-an-error: recorded("unmarshalerr") == nil && !typeis(_v, "[]interface{}") && !typeis(_v, string) ==> err != nil
+//@   ensures a-code-and-message-list-decodes-to-that-code-and-message: recorded("unmarshalerr") == nil && errlist(decoded) ==> err == nil && e.Code == int(unbox(unbox(decoded, "[]interface{}")[0], int64)) && e.Msg == unbox(unbox(decoded, "[]interface{}")[1], string)
+//@   ensures a-malformed-list-is-an-error: recorded("unmarshalerr") == nil && typeis(decoded, "[]interface{}") && !errlist(decoded) ==> err != nil
+//@   ensures a-string-is-the-message: recorded("unmarshalerr") == nil && typeis(decoded, string) ==> err == nil && e.Msg == unbox(decoded, string)
+//@   ensures anything-else-is-an-error: recorded("unmarshalerr") == nil && !typeis(decoded, "[]interface{}") && !typeis(decoded, string) ==> err != nil
 
 //@ func (dht/krpc.NodeAddr).MarshalBinary
 //@   modifies *
